@@ -22,6 +22,8 @@ pub struct Case {
 
 fn prefix_cfg(t: Tier) -> HistCfg {
     let mut c = HistCfg::general(t.pick(14, 30));
+    c.churn_pow = t.pick(14, 17);
+    c.burst_pow = t.pick(10, 13);
     c.zeros = false;
     c.boundary_share = 1;
     c.w_rebuild = 0;
@@ -230,6 +232,7 @@ pub fn witness_kf() -> Case {
             hold: false,
             gen_start: 0,
             wrap_ok: false,
+            max_rounds: 0,
         },
         path: 0,
         continuation: vec![Op::Match { size: MatchSize::Exact(4) }],
@@ -246,7 +249,7 @@ pub fn run(cfg: &RunCfg) -> Report {
     let known = crate::known::load(&cfg.root);
     let excuse = known.listed("C11", "KF-C11-1");
     let tier = cfg.tier;
-    let n = cfg.cases(200_000, 6_000_000);
+    let n = cfg.cases(100_000, 3_000_000);
     rep.absorb("restore_differential", explore(cfg, "C11", n, move || case(tier), move |c: &Case, st| eval(c, st, excuse).map(|_| ())));
     for f in known.for_property("C11") {
         let hit = crate::known::read_witness(&cfg.root, f)
